@@ -47,6 +47,22 @@ func plan(tier string, seed uint64, bin string) []run {
 		runs = append(runs, run{fmt.Sprintf("remove %s, remote R2 added outside the session", kind),
 			Params{Seed: seed, Kind: kind, Remotes: 1, Others: 1, LateRemote: true, Bin: bin}, depth})
 	}
+	for _, kind := range []string{"bug", "identity"} {
+		depth := 4
+		if !quick {
+			depth = 6
+		}
+		runs = append(runs, run{fmt.Sprintf("remove %s, 1 remotes, 1 others, refs packed by the environment", kind),
+			Params{Seed: seed, Kind: kind, Remotes: 1, Others: 1, PackRefs: true, Bin: bin}, depth})
+	}
+	{
+		depth := 3
+		if !quick {
+			depth = 5
+		}
+		runs = append(runs, run{"wipe, identity selected, 1 remotes, refs packed by the environment",
+			Params{Seed: seed, Kind: "bug", Remotes: 1, Others: 1, Wipe: true, PackRefs: true, Bin: bin}, depth})
+	}
 	for r := 0; r <= 3; r++ {
 		depth := 4
 		if r == 3 {
